@@ -262,7 +262,7 @@ func UnmarshalYAML(bs []byte, v interface{}) error {
 }
 
 func Unmarshal(bs []byte, v interface{}) error {
-	if bs[0] == '{' {
+	if 0 < len(bs) && bs[0] == '{' {
 		return json.Unmarshal(bs, v)
 	}
 
@@ -364,7 +364,7 @@ func GetHTTPRequest(ctx *core.Context, r *http.Request) (map[string]interface{},
 				return nil, err
 			}
 
-			if js[0] == '{' {
+			if 0 < len(js) && js[0] == '{' {
 				// If the body looks like JSON, treat it as JSON.
 				if err = json.Unmarshal(js, &m); err != nil {
 					return nil, err
